@@ -285,7 +285,7 @@ func mutateJSON(t *rapid.T, text string, k int) (string, []string) {
 	return string(b), ops
 }
 
-var rawData = []string{"[]", "{}", `{"@graph":[]}`, `{"@id":"http://a/b"}`, `[{"@id":"http://a/b"}]`, "null", "5", `"s"`, "true", "[[]]", `[null]`, `[1,2]`, `{"@context":{}}`,
+var rawData = []string{`{"@graph":[{"@id":"http://example.org/a","":true}]}`, `{"":true}`, `[{"@id":"http://example.org/a","":[1,false]}]`, "[]", "{}", `{"@graph":[]}`, `{"@id":"http://a/b"}`, `[{"@id":"http://a/b"}]`, "null", "5", `"s"`, "true", "[[]]", `[null]`, `[1,2]`, `{"@context":{}}`,
 	`{"@graph":5}`, `{"@graph":{"@graph":[]}}`, `[{"@type":"http://ex.org/v#Test"}]`, `{"@id":"_:b","@type":["http://ex.org/v#Test"]}`,
 	`[{"@id":"http://x/sm","@type":"http://a.ml/vocabularies/document-source-maps#SourceMap","http://a.ml/vocabularies/document-source-maps#lexical":{"@id":"http://x/l"}}]`,
 	`[{"@id":"http://x/sm","@type":"http://a.ml/vocabularies/document-source-maps#SourceMap","http://a.ml/vocabularies/document-source-maps#lexical":[{"@id":"http://x/l"}]},{"@id":"http://x/l","http://a.ml/vocabularies/document-source-maps#element":5}]`,
